@@ -574,6 +574,14 @@ def sinkhorn_vectors_sparse_internal(
     if distributions.shape[1] == 0:
         return result
 
+    # Rows with no mass get the zero vector (as in the exact LOT kernels); left in
+    # the batch they make the shared Sinkhorn iteration non-finite for every row.
+    non_empty_rows = np.where(distributions.sum(axis=1) > 0.0)[0]
+    if non_empty_rows.shape[0] == 0:
+        return result
+    if non_empty_rows.shape[0] < distributions.shape[0]:
+        distributions = distributions[non_empty_rows]
+
     transport_plan_u, transport_plan_v, transport_plan_K = sinkhorn_plan_batch(
         reference_dist, distributions, cost
     )
@@ -596,7 +604,7 @@ def sinkhorn_vectors_sparse_internal(
             scaling = tangent_vectors_scales(transport_images, reference_vectors)
             transport_vectors = tangent_vectors * scaling
 
-        result[batch] = transport_vectors.flatten()
+        result[non_empty_rows[batch]] = transport_vectors.flatten()
 
     return result
 
